@@ -374,7 +374,11 @@ pub fn eval(case: &J) -> Outcome {
             // an ungrouped aggregate over an empty input returns one row of NULLs (count: 0)
             let empty_agg = row[ci] == Cell::Null && !sql.contains("GROUP BY") && rendered.1.len() == 1 && (sql.contains("sum(") || sql.contains("avg(") || sql.contains("min(") || sql.contains("max("));
             // PostgreSQL's LEAST / GREATEST ignore NULL arguments (the shim follows it); the library types them as NULL-propagating
-            let extremum_of_nullable = ["least(e,", "greatest(e,", "least(t1.e,", "greatest(t1.e,"].iter().any(|p| sql.contains(p)) && row[ci] != Cell::Null;
+            // least / greatest with the nullable column e among its arguments, in any position
+            let has_nullable_arg = |f: &str| -> bool { let mut rest = sql; while let Some(i) = rest.find(f) { let tail = &rest[i + f.len()..]; let mut depth = 1; let mut end = tail.len();
+                for (k, ch) in tail.char_indices() { if ch == '(' { depth += 1; } else if ch == ')' { depth -= 1; if depth == 0 { end = k; break; } } }
+                if tail[..end].split(',').any(|a| { let a = a.trim(); a == "e" || a.ends_with(".e") }) { return true; } rest = &tail[end.min(tail.len())..]; } false };
+            let extremum_of_nullable = (has_nullable_arg("least(") || has_nullable_arg("greatest(")) && row[ci] != Cell::Null;
             // a CASE whose condition is NULL takes the ELSE branch in SQL; the library types the CASE as NULL in that case
             let case_on_nullable = ["CASE WHEN e ", "CASE WHEN t1.e ", " WHEN e ", " WHEN t1.e "].iter().any(|p| sql.contains(p)) && row[ci] != Cell::Null;
             let cls = if empty_agg { "null-aggregate-over-empty-input".to_string() } else if extremum_of_nullable { "value/least-greatest-of-nullable".to_string() } else if case_on_nullable { "value/case-condition-on-nullable".to_string() } else if (sql.contains("sin(") || sql.contains("cos(") || sql.contains("tan(")) && matches!(row[ci], Cell::Real(_)) && f.data_type().to_string().contains("float{") { "value/sin-cos-of-wide-range".to_string() } else if row[ci] == Cell::Null { format!("null/{cls}") } else if sql.contains("FULL JOIN") || sql.contains("LEFT JOIN") || sql.contains("RIGHT JOIN") { "value/outer-join".to_string() } else { format!("value/{cls}") };
